@@ -148,6 +148,7 @@ struct CaseOpt
     unsigned    negzero = 0;       // bit 0-2 dir.xyz, 3-5 pos.xyz, 6-8 min.xyz, 9-11 max.xyz: a zero component is passed as -0.0
     long double cscale = 1, dscale = 1; // units (powers of two) of the box/origin numbers and of the direction numbers
     int         regime = -1;       // >= 0: the stage supplies the regime (see below) instead of regime<T>()
+    bool        fallback_only = false; // judge the case against the documented-fallback model only (see fallback_model)
 };
 // number of the oracle -> argument of the library (exact on every alphabet: <= 64 significant bits times a power of two)
 template <class T, class N> inline T conv (const N& v, long double unit) { return (T) ((long double) v * unit); }
@@ -233,6 +234,81 @@ template <class T> inline bool all_parameters_finite (const long double* mn, con
     return true;
 }
 
+// ---- second oracle for the overflow regimes (2, 3): the library's documented fallback design, evaluated exactly ----------
+// The exact slab oracle above is the property. In the regimes where a slab quotient (face - origin)/dir exceeds the largest
+// finite number TMAX the library deliberately departs from it (recorded as OPEN findings under the ".some-t-overflows" /
+// ".every-t-overflows" sites, which therefore stay quiet whatever the code does there). What the library itself promises for
+// those inputs (ImathBoxAlgo.h: the guards "dir > 1 || |d| <= TMAX*dir" in front of every division and their else-branches;
+// known_findings.json: "treat the axis as parallel when the slab quotient would overflow; intersects() saturates t to TMAX") is:
+//   findEntryAndExitPoints : an axis with a parameter beyond TMAX is handled like an axis with direction component 0: miss if
+//                            the origin is outside [min,max] on that axis, otherwise no constraint from that axis; the remaining
+//                            axes decide by the ordinary slab test (no remaining axis: hit);
+//   intersects (both forms): the ordinary ray slab test in which every parameter t is replaced by min(t, TMAX)
+//                            (hit iff the origin is inside, or no axis moves away from / stays outside its slab and
+//                            max(-1, max_i sat(lo_i)) <= min(TMAX, min_i sat(hi_i))).
+// This model is evaluated in exact arithmetic on the input (same number types as the slab oracle) and the library's truth
+// values must equal it on every regime-2/3 case: sites "<entry point>.overflow-regime.vs-documented-fallback". It demands
+// nothing beyond the library's own design, and makes a slip inside any of the (six per function) fallback branches visible.
+// Checked domain: the model is also evaluated with every representable parameter replaced by its correctly rounded value
+// fl(D/d); where the two evaluations differ the decision rests on a sub-ulp difference of two parameters: counted, not judged.
+template <class T> inline bool tmax_frac (Frac<long double>& f) { f = {(long double) std::numeric_limits<T>::max (), 1}; return true; }
+// guard alphabet (c14_guard.hpp): numerators in units U = 2^(emax+1-p), denominators in units V = 2^-p: TMAX = (2^p - 1) U = ((2^p - 1)/2^p) U/V
+template <class T> inline bool tmax_frac (Frac<__int128>& f) { const int p = std::numeric_limits<T>::digits; f = {((__int128) 1 << p) - 1, (__int128) 1 << p}; return true; }
+template <class T, class N> inline bool tmax_frac (Frac<N>&) { return false; }
+
+struct FallbackModel { bool judged = false, line = false, ray = false; unsigned over = 0, outside = 0; };
+
+template <class T, class N>
+inline FallbackModel fallback_model (const N* mn, const N* mx, const N* p, const N* d, const Frac<N>& tm, long double cscale, long double dscale)
+{
+    FallbackModel m;
+    const T TMAX = std::numeric_limits<T>::max ();
+    auto beyond = [&tm] (const Frac<N>& t) { Frac<N> a = t; if (a.n < 0) a.n = -a.n; return lt (tm, a); }; // |t| > TMAX
+    bool inside = true, parmiss = false, overmiss = false, away = false, have = false; // parmiss: a zero direction component decides (both models); overmiss: line model only
+    Frac<N> tin{0, 1}, tout{0, 1}, rin{-1, 1}, rout = tm;          // exact evaluation
+    T q_in = -std::numeric_limits<T>::infinity (), q_out = std::numeric_limits<T>::infinity (), qr_in = -1, qr_out = TMAX; // rounded parameters
+    for (int i = 0; i < 3; ++i)
+    {
+        const bool out_i = p[i] < mn[i] || p[i] > mx[i];
+        inside = inside && !out_i;
+        if (d[i] == 0) { parmiss = parmiss || out_i; continue; }
+        Frac<N> lo, hi;
+        if (d[i] > 0) { lo = {mn[i] - p[i], d[i]}; hi = {mx[i] - p[i], d[i]}; }
+        else          { lo = {p[i] - mx[i], -d[i]}; hi = {p[i] - mn[i], -d[i]}; }
+        const bool blo = beyond (lo), bhi = beyond (hi);
+        const T    flo = blo ? (T) 0 : conv<T> (lo.n, cscale) / conv<T> (lo.d, dscale), fhi = bhi ? (T) 0 : conv<T> (hi.n, cscale) / conv<T> (hi.d, dscale);
+        // line: an axis with a parameter beyond TMAX is handled as parallel
+        if (blo || bhi) { m.over |= 1u << i; if (out_i) { m.outside |= 1u << i; overmiss = true; } }
+        else
+        {
+            if (!have) { tin = lo; tout = hi; have = true; } else { if (lt (tin, lo)) tin = lo; if (lt (hi, tout)) tout = hi; }
+            if (flo > q_in) q_in = flo;
+            if (fhi < q_out) q_out = fhi;
+        }
+        // ray: parameters saturate to TMAX
+        if (hi.n < 0) away = true;
+        else
+        {
+            const Frac<N> shi = bhi ? tm : hi;
+            if (lt (shi, rout)) rout = shi;
+            const T fs = bhi ? TMAX : fhi;
+            if (fs < qr_out) qr_out = fs;
+            if (lo.n >= 0)
+            {
+                const Frac<N> slo = blo ? tm : lo;
+                if (lt (rin, slo)) rin = slo;
+                const T gs = blo ? TMAX : flo;
+                if (gs > qr_in) qr_in = gs;
+            }
+        }
+    }
+    m.line = !parmiss && !overmiss && (!have || le (tin, tout));
+    m.ray  = inside || (!parmiss && !away && le (rin, rout));
+    const bool line_r = !parmiss && !overmiss && q_in <= q_out, ray_r = inside || (!parmiss && !away && qr_in <= qr_out);
+    m.judged = line_r == m.line && ray_r == m.ray;
+    return m;
+}
+
 template <class T> inline std::string v3 (const Vec3<T>& v) { return "(" + vf::fmt (v.x) + "," + vf::fmt (v.y) + "," + vf::fmt (v.z) + ")"; }
 template <class T> inline const char* tname () { return sizeof (T) == 4 ? "float" : "double"; }
 template <class T> inline std::string casestr (const Box<Vec3<T>>& b, const Line3<T>& r)
@@ -244,8 +320,11 @@ struct Tally
 {
     long long cases = 0, excluded = 0, overflow = 0, alloverflow = 0, empty = 0, flat = 0, inside = 0, hit_outside = 0, behind = 0, miss = 0, graze = 0, axis_par = 0, trans = 0, nbu = 0, uhit = 0;
     double    worst = 0;
+    long long fb_judged = 0, fb_excluded = 0, fb_blk[3][2][2] = {{{0, 0}, {0, 0}}, {{0, 0}, {0, 0}}, {{0, 0}, {0, 0}}}; // [axis][dir < 0][origin outside the slab]
     void operator+= (const Tally& o)
     {
+        fb_judged += o.fb_judged; fb_excluded += o.fb_excluded;
+        for (int a = 0; a < 3; ++a) for (int g = 0; g < 2; ++g) for (int k = 0; k < 2; ++k) fb_blk[a][g][k] += o.fb_blk[a][g][k];
         cases += o.cases; excluded += o.excluded; overflow += o.overflow; alloverflow += o.alloverflow; empty += o.empty; flat += o.flat; inside += o.inside; hit_outside += o.hit_outside; behind += o.behind;
         miss += o.miss; graze += o.graze; axis_par += o.axis_par; trans += o.trans; nbu += o.nbu; uhit += o.uhit; if (o.worst > worst) worst = o.worst;
     }
@@ -327,6 +406,26 @@ template <class T, class N> inline void one_case (const N* mn, const N* mx, cons
     const bool g3 = intersects (b, r, ip);
     const bool gl = findEntryAndExitPoints (r, b, en, exi);
     tl.trans += 3; ++tl.cases;
+    if ((rg == 2 || rg == 3) && !tr.empty)
+    {   // second oracle: the documented fallback design (see fallback_model)
+        Frac<N> tm{0, 1};
+        if (tmax_frac<T> (tm))
+        {
+            const FallbackModel fm = fallback_model<T, N> (mn, mx, p, d, tm, opt.cscale, opt.dscale);
+            if (!fm.judged) ++tl.fb_excluded;
+            else
+            {
+                ++tl.fb_judged;
+                for (int i = 0; i < 3; ++i) if (fm.over >> i & 1) ++tl.fb_blk[i][d[i] < 0 ? 1 : 0][fm.outside >> i & 1];
+                const std::string fsfx = std::string (".overflow-regime.vs-documented-fallback") + (opt.cls ? opt.cls : "");
+                auto why = [&] (bool v) { return std::string ("truth value ") + vf::fmt (v) + " by the documented fallback (axes with a parameter beyond max: mask " + std::to_string (fm.over) + ", of which the origin is outside the slab: mask " + std::to_string (fm.outside) + ")"; };
+                if (gl != fm.line) fail_lazy ("findEntryAndExitPoints" + fsfx, [&] { return casestr (b, r); }, [&] { return why (fm.line); }, [&] { return vf::fmt (gl); });
+                if (g2 != fm.ray) fail_lazy ("intersects(box,ray)" + fsfx, [&] { return casestr (b, r); }, [&] { return why (fm.ray); }, [&] { return vf::fmt (g2); });
+                if (g3 != fm.ray) fail_lazy ("intersects(box,ray,ip)" + fsfx, [&] { return casestr (b, r); }, [&] { return why (fm.ray); }, [&] { return vf::fmt (g3); });
+            }
+        }
+    }
+    if (opt.fallback_only) return;
     if (hitonly)
     {   // one-sided (see all_parameters_finite)
         if (tr.ray && !g2) fail_lazy ("intersects(box,ray).truth.t-underflows.exact-hit", [&] { return casestr (b, r); }, [&] { return std::string ("truth value true"); }, [&] { return vf::fmt (g2); });
@@ -377,5 +476,6 @@ template <class T> bool run_maxface (bool thorough); // c14_max.hpp
 template <class T> bool run_signed (bool thorough);  // c14_max.hpp
 template <class T> bool run_negzero (bool thorough); // c14_max.hpp
 template <class T> bool run_guard (bool thorough);   // c14_guard.hpp
+template <class T> bool run_ovf (bool thorough);     // c14_ovf.hpp
 
 } // namespace c14
